@@ -117,6 +117,12 @@ func c18(r *Report) propMeta {
 	r.Rule("C18.R7", "pairing: members follow the group")
 	r.Gate("old-members-removed", ex, CallEff("Keeper.DeleteMembers"), []Cond{{Op: "EQL", A: []string{"field:GroupTransition.CurrentGroupID"}, B: []string{"const:0"}, Want: false, Desc: "CurrentGroupID != 0"}}, GateOpts{})
 	r.ArgHas("old-members-of-current", ex, "Keeper.DeleteMembers", 1, 1, "field:GroupTransition.CurrentGroupID")
+	// who removes / adds bandtss member records at all: only the transition machinery (and genesis import); a migration
+	// or clean-up that prunes "other groups' members" also prunes the incoming group of a transition awaiting execution
+	// (seed C18-12)
+	r.Callers("member-record-removers", bK+"DeleteMember", []string{bK + "DeleteMembers"}, []string{bK + "DeleteMembers"})
+	r.Callers("member-set-removers", bK+"DeleteMembers", []string{ex}, []string{ex})
+	r.Callers("member-set-adders", bK+"AddMembers", []string{ft, og, oc}, []string{ft, og, oc})
 	r.Dominated("members-added-before-exec-status", oc, CallEff("Keeper.AddMembers"), StoreEff("GroupTransition.Status", stExec))
 	r.ArgHas("members-of-incoming", oc, "Keeper.AddMembers", 1, 1, "field:GroupTransition.IncomingGroupID")
 	r.Dominated("members-added-before-exec-status", og, CallEff("Keeper.AddMembers"), StoreEff("GroupTransition.Status", stExec))
